@@ -377,16 +377,16 @@ def clauses(tier):
     return [
         Clause("layout", check_layout,
                "every filter of the bank against the documented vertices / half-step edges (1e-9), centres increasing and inside supports_hz",
-               any_bank, quick=800, thorough=24000),
+               any_bank, quick=800, thorough=48000),
         Clause("triangle", check_triangle,
                "one (tri|Fbank bank, filter, width 2..4096 absolute or 0.5..64 bins per bandwidth) per case, every DFT bin against the documented triangle (1e-12); non-trivial needs a bin inside the support",
-               tri_case, quick=700, thorough=20000),
+               tri_case, quick=700, thorough=48000),
         Clause("gain", check_gain,
                "one Gabor/gammatone filter whose reference support spans < rate/2 on a grid of >= 16 bins per bandwidth: peak gain 1 at the centre, 3 dB crossing at both documented intersections (erb=False) or ERB = edge spacing (erb=True)",
-               gain_case, quick=600, thorough=12000),
+               gain_case, quick=600, thorough=32000),
         Clause("l2norm", check_l2,
                "one Gabor/gammatone filter with scale_l2_norm whose reference support spans < rate/2: sum |h|^2 = 1 +- 1e-3 over a buffer holding all but 1e-5 of the reference energy",
-               l2_case, quick=400, thorough=8000),
+               l2_case, quick=400, thorough=20000),
         Clause("reject", check_reject,
                "ranges invalid under the statement (low<0 with/without high_hz=None; 0<high<=low; high>rate/2+1) must raise exactly ValueError",
                _reject_cases, quick=600, thorough=12000, shards=4),
